@@ -30,121 +30,89 @@ Proof.
   apply IH. intros y Hy. apply H. right. exact Hy.
 Qed.
 
-Lemma In_targets e n k : In k (targets e n) <-> exists b, In (n, b) e /\ In (Alias k) b.
+Lemma memN_cons x y l : memN x (y :: l) = (x =? y) || memN x l.
+Proof. reflexivity. Qed.
+
+Lemma filter_le {A} (p q : A -> bool) l :
+  (forall y, q y = true -> p y = true) -> (length (filter q l) <= length (filter p l))%nat.
 Proof.
-  unfold targets. rewrite in_flat_map. split.
-  - intros ([m b] & Hin & Hk). cbn [fst snd] in Hk. destruct (m =? n) eqn:E; [|destruct Hk].
-    apply N.eqb_eq in E. subst. exists b. split; [exact Hin|].
-    unfold atom_targets in Hk. apply in_flat_map in Hk as (a & Ha & Hk).
-    destruct a as [k'|]; [|destruct Hk]. destruct Hk as [->|[]]. exact Ha.
-  - intros (b & Hin & Hk). exists (n, b). split; [exact Hin|]. cbn [fst snd]. rewrite N.eqb_refl.
-    unfold atom_targets. apply in_flat_map. exists (Alias k). split; [exact Hk|left; reflexivity].
+  intros H. induction l as [|a l IH]; cbn [filter]; [lia|].
+  destruct (q a) eqn:Q; [rewrite (H a Q); cbn [length]; lia|].
+  destruct (p a); cbn [length]; lia.
 Qed.
+
+Lemma filter_lt {A} (p q : A -> bool) l x :
+  (forall y, q y = true -> p y = true) -> In x l -> p x = true -> q x = false ->
+  (length (filter q l) < length (filter p l))%nat.
+Proof.
+  intros H. induction l as [|a l IH]; intros Hin Px Qx; [destruct Hin|]. cbn [filter].
+  destruct Hin as [->|Hin].
+  - rewrite Px, Qx. cbn [length]. pose proof (filter_le p q l H). lia.
+  - specialize (IH Hin Px Qx). destruct (q a) eqn:Q; [rewrite (H a Q); cbn [length]; lia|].
+    destruct (p a); cbn [length]; lia.
+Qed.
+
+Lemma filter_length_le' {A} (q : A -> bool) l : (length (filter q l) <= length l)%nat.
+Proof. induction l as [|a l IH]; cbn [filter length]; [lia|]. destruct (q a); cbn [length]; lia. Qed.
 
 Section Chase.
   Variable hit : list name.
   Variable e : env.
 
-  Definition good (d : nat) (n : name) : Prop := forall f, (d <= f)%nat -> chase hit f e n <> OutOfFuel.
+  (* rule names not yet on the active path: the termination measure of the guarded recursion *)
+  Definition freeN (active : list name) : nat :=
+    length (filter (fun m => negb (memN m active)) (names e)).
 
-  Lemma good_mono d d' n : good d n -> (d <= d')%nat -> good d' n.
-  Proof. intros G L f Hf. apply G. lia. Qed.
-
-  Lemma step_good d n : (forall k, In k (targets e n) -> good d k) -> good (S d) n.
+  Lemma free_step n active :
+    In n (names e) -> memN n active = false -> (freeN (n :: active) < freeN active)%nat.
   Proof.
-    intros H f Hf. destruct f as [|f]; [lia|]. cbn [chase].
+    intros Hin Hn. unfold freeN. apply filter_lt with (x := n); [|exact Hin|rewrite Hn; reflexivity|].
+    - intros y Hy. rewrite memN_cons in Hy. destruct (memN y active); [|reflexivity].
+      rewrite orb_true_r in Hy. discriminate.
+    - rewrite memN_cons, N.eqb_refl. reflexivity.
+  Qed.
+
+  Lemma chase_g_fuel : forall f active n, (freeN active < f)%nat -> chase_g hit f active e n <> OutOfFuel.
+  Proof.
+    induction f as [|f IH]; intros active n Hf; [lia|]. cbn [chase_g].
     destruct (memN n hit); [discriminate|].
+    destruct (memN n active) eqn:A; [discriminate|].
     apply any_o_no_fuel. intros [m b] Hin. cbn [fst snd].
     destruct (m =? n) eqn:E; [|discriminate]. apply N.eqb_eq in E. subst m.
     apply any_o_no_fuel. intros a Ha. destruct a as [k|]; [|discriminate].
-    apply H; [|lia]. apply In_targets. exists b. split; assumption.
+    apply IH.
+    assert (Hn : In n (names e)) by (unfold names; apply in_map_iff; exists (n, b); split; [reflexivity|exact Hin]).
+    pose proof (free_step n active Hn A). lia.
   Qed.
 
-  Lemma undefined_targets n : defined e n = false -> targets e n = [].
+  Lemma freeN_nil : (freeN [] <= length e)%nat.
   Proof.
-    intros U. destruct (targets e n) as [|k r] eqn:T; [reflexivity|].
-    assert (Hk : In k (targets e n)) by (rewrite T; left; reflexivity).
-    apply In_targets in Hk as (b & Hin & _).
-    assert (D : defined e n = true).
-    { apply memN_In. unfold names. apply in_map_iff. exists (n, b). split; [reflexivity|exact Hin]. }
-    congruence.
+    unfold freeN. pose proof (filter_length_le' (fun m => negb (memN m [])) (names e)) as H.
+    unfold names in H at 2. rewrite map_length in H. exact H.
   Qed.
 
-  Lemma undefined_good n : defined e n = false -> good 1 n.
-  Proof. intros U. apply step_good. rewrite (undefined_targets _ U). intros k []. Qed.
-
-  Definition inv (d : nat) (s : list name) : Prop := forall n, memN n s = true -> good d n.
-
-  Lemma settled_good d s k : (1 <= d)%nat -> inv d s -> settled e s k = true -> good d k.
+  Theorem chase_terminates_fuel : forall n f, (chase_fuel e <= f)%nat -> chase hit f e n <> OutOfFuel.
   Proof.
-    intros Hd I S. unfold settled in S. apply orb_true_iff in S as [U|M].
-    - apply negb_true_iff in U. eapply good_mono; [apply undefined_good; exact U|exact Hd].
-    - apply I. exact M.
-  Qed.
-
-  Lemma kahn_step_inv d s : (1 <= d)%nat -> inv d s -> inv (S d) (kahn_step e s).
-  Proof.
-    intros Hd I n M. unfold kahn_step in M. rewrite memN_app in M. apply orb_true_iff in M as [M|M].
-    - eapply good_mono; [apply I; exact M|lia].
-    - apply memN_In in M. apply filter_In in M as [_ F]. rewrite forallb_forall in F.
-      apply step_good. intros k Hk. eapply settled_good; eauto.
-  Qed.
-
-  Lemma kahn_inv r : forall d s, (1 <= d)%nat -> inv d s -> inv (r + d) (kahn r e s).
-  Proof.
-    induction r as [|r IH]; intros d s Hd I; cbn [kahn]; [exact I|].
-    replace (S r + d)%nat with (r + S d)%nat by lia. apply IH; [lia|]. apply kahn_step_inv; assumption.
-  Qed.
-
-  Theorem chase_terminates_fuel :
-    acyclic_alias e = true -> forall n f, (chase_fuel e <= f)%nat -> chase hit f e n <> OutOfFuel.
-  Proof.
-    intros A n f Hf. unfold chase_fuel in Hf.
-    destruct (defined e n) eqn:D.
-    - unfold acyclic_alias in A. rewrite forallb_forall in A.
-      assert (M : memN n (kahn (length e) e []) = true) by (apply A; apply memN_In; exact D).
-      assert (I : inv (length e + 1) (kahn (length e) e [])).
-      { apply kahn_inv; [lia|]. intros k Hk. cbn in Hk. discriminate. }
-      apply (I n M). lia.
-    - apply (undefined_good n D). lia.
+    intros n f Hf. unfold chase. apply chase_g_fuel. pose proof freeN_nil. unfold chase_fuel in Hf. lia.
   Qed.
 End Chase.
 
-Theorem chase_terminates e :
-  acyclic_alias e = true ->
-  exists f0, f0 = chase_fuel e /\ forall hit n f, (f0 <= f)%nat -> chase hit f e n <> OutOfFuel.
-Proof.
-  intros A. exists (chase_fuel e). split; [reflexivity|]. intros hit n f Hf.
-  apply chase_terminates_fuel; assumption.
-Qed.
+(* cyclic rule references terminate: for EVERY environment the guarded helper returns within |e|+2 nested calls *)
+Theorem chase_terminates : forall e hit n f, (chase_fuel e <= f)%nat -> chase hit f e n <> OutOfFuel.
+Proof. intros e hit n f Hf. apply chase_terminates_fuel. exact Hf. Qed.
 
-Theorem chase_seq_terminates e :
-  acyclic_alias e = true ->
-  forall hits n f, (chase_fuel e <= f)%nat -> chase_seq hits f e n <> OutOfFuel.
+Theorem chase_seq_terminates : forall e hits n f, (chase_fuel e <= f)%nat -> chase_seq hits f e n <> OutOfFuel.
 Proof.
-  intros A hits n f Hf. induction hits as [|h r IH]; cbn [chase_seq]; [discriminate|].
-  pose proof (chase_terminates_fuel h e A n f Hf) as H.
+  intros e hits n f Hf. induction hits as [|h r IH]; cbn [chase_seq]; [discriminate|].
+  pose proof (chase_terminates e h n f Hf) as H.
   destruct (chase h f e n); [discriminate|exact IH|congruence].
 Qed.
 
-(* the schema  a = b .size 3 / b = a : names a = 0, b = 1, tstr = 100, text = 101, uint = 102;
-   `.size` asks is_ident_string_data_type(b) || is_ident_uint_data_type(b) *)
+(* the schema  a = b .size 3 / b = a  (names a = 0, b = 1, tstr = 100, text = 101, uint = 102), on which the
+   code overflowed the stack before d9284e7: `.size` asks is_ident_string_data_type(b) || is_ident_uint_data_type(b),
+   and with the guard both answer "no" *)
 Definition cyc2 : env := [(0, [Alias 1]); (1, [Alias 0])].
 Definition size_hits : list (list name) := [[100; 101]; [102]].
-
-Lemma cyc2_chase hit : memN 0 hit = false -> memN 1 hit = false ->
-  forall f, chase hit f cyc2 0 = OutOfFuel /\ chase hit f cyc2 1 = OutOfFuel.
-Proof.
-  intros H0 H1. induction f as [|f [I0 I1]]; [split; reflexivity|].
-  split; cbn [chase]; [rewrite H0|rewrite H1]; cbn [any_o cyc2 fst snd N.eqb Pos.eqb]; [rewrite I1|rewrite I0]; reflexivity.
-Qed.
-
-Theorem chase_refuted :
-  exists e n, acyclic_alias e = false /\ forall f, chase_seq size_hits f e n = OutOfFuel.
-Proof.
-  exists cyc2, 1. split; [reflexivity|]. intros f. unfold size_hits. cbn [chase_seq].
-  rewrite (proj2 (cyc2_chase [100; 101] eq_refl eq_refl f)). reflexivity.
-Qed.
 
 (* the alias graph may be acyclic and the number of calls still exponential in the number of rules *)
 Theorem calls_exponential_refuted :
@@ -261,21 +229,18 @@ Qed.
 (* ====================================================================== *)
 Open Scope Z_scope.
 
-Theorem mul1000_panics_iff : forall n, in_i64 n = true ->
+Theorem mul1000_none_iff : forall n, in_i64 n = true ->
   (mul1000_checked n = None <-> mul1000_overflows n = true).
 Proof.
   intros n H. unfold mul1000_checked, mul1000_overflows, in_i64 in *.
   destruct ((- 2 ^ 63 <=? n * 1000) && (n * 1000 <? 2 ^ 63)) eqn:E; split; intros G; try discriminate; try reflexivity; lia.
 Qed.
 
-Theorem mul1000_refuted : exists n, in_i64 n = true /\ mul1000_checked n = None.
-Proof. exists 9223372036854775807. split; vm_compute; reflexivity. Qed.
-
 Theorem try_into_i64_total : forall z, in_i64 z = true -> try_into_i64 z = Some z.
 Proof. intros z H. unfold try_into_i64. rewrite H. reflexivity. Qed.
 
-Theorem try_into_i64_refuted : exists z, in_cbor_int z = true /\ try_into_i64 z = None.
-Proof. exists 18446744073709551615. split; vm_compute; reflexivity. Qed.
+Theorem try_into_i64_none_iff : forall z, try_into_i64 z = None <-> in_i64 z = false.
+Proof. intros z. unfold try_into_i64. destruct (in_i64 z); split; intros H; congruence. Qed.
 
 Theorem as_u32_exact_iff : forall v, 0 <= v -> (as_u32 v = v <-> v < 2 ^ 32).
 Proof. intros v H. unfold as_u32. split; intros G; [|apply Z.mod_small]; lia. Qed.
@@ -301,6 +266,9 @@ Proof.
   destruct ((0 <=? a + b) && (a + b <? 2 ^ 64)) eqn:F; [reflexivity|lia].
 Qed.
 
-Theorem plus_checked_refuted : exists a b a' b', in_u64 a = true /\ in_u64 b = true /\ plus_checked a b = None /\
-  in_i64 a' = true /\ in_i64 b' = true /\ plus_checked a' b' = None.
-Proof. exists 18446744073709551615, 1, (-9223372036854775808), (-1). repeat split; vm_compute; reflexivity. Qed.
+Theorem plus_checked_uint_none_iff : forall a b, 0 <= a -> 0 <= b -> (plus_checked a b = None <-> 2 ^ 64 <= a + b).
+Proof.
+  intros a b Ha Hb. unfold plus_checked, in_u64.
+  destruct ((0 <=? a) && (0 <=? b)) eqn:E; [|lia].
+  destruct ((0 <=? a + b) && (a + b <? 2 ^ 64)) eqn:F; split; intros G; try discriminate; try reflexivity; lia.
+Qed.
